@@ -399,3 +399,41 @@ Proof.
       rewrite ?(misc_try_small e _ 2) by (rewrite Hlen; vm_compute; reflexivity);
       rewrite misc_try_hit by exact Hu; reflexivity.
 Qed.
+
+(* ------------------------------------------------------------------ flat structs, flat list items, raw streams *)
+Definition wf_flat (L : layout) (ints : list Z) : bool :=
+  match unflat L ints with
+  | Some (v, []) => wt L v
+  | _ => false
+  end.
+
+Theorem flat_roundtrip : forall L e, sec_ok (enc_flat L e) (dec_flat L e) (wf_flat L).
+Proof.
+  intros L e ints pre post H Hpre Hb. unfold wf_flat in H. unfold enc_flat in *.
+  destruct (unflat L ints) as [[v [|x r]]|] eqn:E; try discriminate.
+  apply unflat_vflat in E. rewrite app_nil_r in E. subst ints. cbn [fst snd] in *.
+  assert (Hlen : zlen (enc e L v) = lsize L) by (apply enc_zlen; exact H).
+  split; [rewrite Hlen; pose proof (lsize_nonneg L); lia|].
+  exists (enc e L v). split.
+  - apply slice_mid'; [reflexivity|]. symmetry. exact Hlen.
+  - unfold dec_flat. rewrite dec_enc_nil by exact H. reflexivity.
+Qed.
+
+Lemma flat_codec_ok : forall L e, 1 <= lsize L < 4294967296 -> icodec_ok (flat_codec L) e (wf_flat L).
+Proof.
+  intros L e Hs. constructor.
+  - exact Hs.
+  - intros ints off H. unfold wf_flat in H. cbn [ic_layout ic_value flat_codec].
+    destruct (unflat L ints) as [[v [|x r]]|]; try discriminate. apply wt_shape. exact H.
+  - intros ints off H _ _. unfold wf_flat in H. cbn [ic_layout ic_value flat_codec].
+    destruct (unflat L ints) as [[v [|x r]]|]; try discriminate. exact H.
+  - intros ints pre post H _ _. unfold wf_flat in H. cbn [ic_read ic_value flat_codec].
+    destruct (unflat L ints) as [[v [|x r]]|] eqn:E; try discriminate.
+    apply unflat_vflat in E. rewrite app_nil_r in E. subst ints. reflexivity.
+Qed.
+
+Theorem raw_roundtrip : forall e, sec_ok (enc_raw e) (dec_raw e) (fun _ => true).
+Proof.
+  intros e b pre post _ Hpre Hb. unfold enc_raw. cbn [fst snd]. pose proof (zlen_nonneg _ b).
+  split; [lia|]. exists b. split; [apply slice_mid|reflexivity].
+Qed.
